@@ -201,7 +201,7 @@ def _norm(x):
     return x
 
 
-def arg_forms(ctx, name, fn, args, prop_exc=()):
+def arg_forms(ctx, name, fn, args, prop_exc=(), mutation="violation"):
     """The same byte content in another bytes-like CONTAINER (bytearray, memoryview) is the same input: a call may refuse
     it (any exception), but if it answers, the answer equals the one for `bytes`, and the caller's buffer is left alone.
     Used by every property whose functions take byte strings; returns the number of comparisons made."""
@@ -230,6 +230,8 @@ def arg_forms(ctx, name, fn, args, prop_exc=()):
             ctx.count("argforms.compared")
             if r != base:
                 ctx.violation(f"arg-form/{name}/{typ}-arg{i}/different-answer", f"{name} with argument {i} as {typ} returned {r!r:.200}, with bytes {base!r:.200}")
-            if bytes(buf) != a:
+            if bytes(buf) != a and mutation != "violation":
+                ctx.count(f"stat.argument_buffer_mutated.{name}")      # observed, not claimed (DESIGN.md section 7)
+            elif bytes(buf) != a:
                 ctx.violation(f"arg-form/{name}/{typ}-arg{i}/argument-mutated", f"{name} changed the caller's buffer {a.hex()[:80]} -> {bytes(buf).hex()[:80]}")
     return n
